@@ -72,6 +72,8 @@ type FV struct {
 	script    []string
 	arrays    map[string]string // heap array name -> sort
 	refArrays map[string]bool   // arrays whose Int elements are references
+	stableArrays map[string]bool // field arrays that survive havoc (stable declarations)
+	protectedCells []protectedCell
 	obls      []*Obligation
 	ctr       int
 	epochCtr  int
@@ -618,9 +620,33 @@ func (v *FV) heapSet(s *Snapshot, name string, t Term) {
 }
 
 func (v *FV) havocAll(s *Snapshot) {
+	// the ghost call trace of function values survives arbitrary effects
+	keep := map[string]Term{}
+	for _, g := range []string{"CALLS", "ARGNN"} {
+		if _, ok := v.arrays[g]; ok {
+			keep[g] = v.heapGet(s, g)
+		}
+	}
+	// fields declared stable (written only during construction; checked syntactically)
+	for a := range v.stableArrays {
+		keep[a] = v.heapGet(s, a)
+	}
+	// cells of local variables of the functions being executed that cannot be reached by
+	// foreign code (captured only by closures that are called/deferred right here)
+	type cellVal struct{ arr, ref, val string }
+	var cells []cellVal
+	for _, pc := range v.protectedCells {
+		cells = append(cells, cellVal{pc.arr, pc.ref, fmt.Sprintf("(select %s %s)", v.heapGet(s, pc.arr), pc.ref)})
+	}
 	s.ep = v.newEpoch(0)
-	s.over = map[string]Term{}
+	s.over = keep
+	for _, c := range cells {
+		val := v.define("keepcell", strings.TrimSuffix(strings.TrimPrefix(v.arrSort(c.arr), "(Array Int "), ")"), c.val)
+		v.heapSet(s, c.arr, fmt.Sprintf("(store %s %s %s)", v.heapGet(s, c.arr), c.ref, val))
+	}
 }
+
+type protectedCell struct{ arr, ref string }
 
 func (v *FV) mergeSnaps(cs []condSnap) *Snapshot {
 	if len(cs) == 1 {
@@ -641,6 +667,9 @@ func (v *FV) fieldArray(structT types.Type, i int) (string, types.Type) {
 	v.regArray(name, fmt.Sprintf("(Array Int %s)", v.sortOf(f.Type())))
 	if v.isRefLike(f.Type()) {
 		v.refArrays[name] = true
+	}
+	if v.eng.db.Stable[typeKey(structT)+"."+f.Name()] {
+		v.stableArrays[name] = true
 	}
 	return name, f.Type()
 }
@@ -755,10 +784,15 @@ func fnKey(fn *ssa.Function) string {
 		rt := fn.Signature.Recv().Type()
 		return typeKey(rt) + "." + fn.Name()
 	}
-	if fn.Pkg != nil {
-		if fn.Parent() != nil {
-			return fnKey(fn.Parent()) + "$" + fn.Name()
+	if fn.Parent() != nil {
+		// anonymous function: its name already contains the parent's ("Execute$1")
+		pk := fnKey(fn.Parent())
+		if i := strings.LastIndex(pk, "."); i >= 0 {
+			return pk[:i+1] + fn.Name()
 		}
+		return pk + "$" + fn.Name()
+	}
+	if fn.Pkg != nil {
 		return fn.Pkg.Pkg.Path() + "." + fn.Name()
 	}
 	if fn.Object() != nil && fn.Object().Pkg() != nil {
